@@ -11,9 +11,9 @@
     branch or is not selected;  [view_adj]: the view of a remaining branch (a selected tip
     branch gets length 0 under removeTips). *)
 From Coq Require Import String ZArith QArith Bool Arith List Permutation.
-From GT Require Import Base.UTree Spec.Obs Spec.Unrooted Model.Reroot Model.Rand Model.Prune Model.Collapse
+From GT Require Import Base.UTree Spec.Obs Spec.Induced Spec.Unrooted Model.Reroot Model.Rand Model.Prune Model.Collapse
      Proofs.PruneBase Proofs.CollapseBase Proofs.CollapseSplits Proofs.CollapseExact Proofs.CollapseDist
-     Proofs.CollapseResolve.
+     Proofs.CollapseResolve Proofs.CollapseDepth Proofs.OracleDist Proofs.CollapseOracle.
 Import ListNotations.
 Local Close Scope Q_scope.
 Local Open Scope string_scope.
@@ -153,3 +153,117 @@ Example C07_example_resolve :
   length (branches (resolve ex7 [0; 1; 0; 0; 1; 0; 2; 3])) = 13.
 Proof. vm_compute. repeat split; auto. Qed.
 Print Assumptions C07_example_resolve.
+
+(** * the two root branches of a rooted tree, in each mode *)
+(** removeRoot = false: the two root branches stay where they are, in the same order, with their
+    data (only a selected tip branch gets length 0 under removeTips); the root keeps its two
+    neighbours; each side is collapsed on its own as with removeRoot ([rebuilt]) *)
+Theorem C07_rooted_default_root_branches :
+  forall rt sel n cm e1 c1 e2 c2,
+  wf (UNode n cm [Some (e1, c1); Some (e2, c2)]) = true ->
+  no_single (UNode n cm [Some (e1, c1); Some (e2, c2)]) = true ->
+  remove_edges false rt sel (UNode n cm [Some (e1, c1); Some (e2, c2)]) =
+  UNode n cm [Some (adj rt sel 0 e1 c1, rebuilt rt sel c1 1);
+              Some (adj rt sel (1 + span c1) e2 c2, rebuilt rt sel c2 (S (1 + span c1)))].
+Proof. exact remove_edges_rooted. Qed.
+Print Assumptions C07_rooted_default_root_branches.
+
+(** removeRoot = true: the two root branches are ordinary branches, each judged on its own
+    (C07_collapse_exact_removeRoot holds for every tree); in particular the number of branches of
+    the result is the number of tip branches and non-selected branches, root branches included *)
+Theorem C07_removeRoot_branch_count :
+  forall rt s t, wf t = true ->
+  length (branches (remove_edges true rt (fun _ e c => s e c) t)) = length (filter (stays s) (branches t)).
+Proof. exact remove_edges_count. Qed.
+Print Assumptions C07_removeRoot_branch_count.
+
+(** * collapse by depth *)
+(** the depth of a branch is the number of tips on the light side of its bipartition *)
+Theorem C07_depth_is_light_side :
+  forall t e c, wf t = true -> 2 <= degree t -> In (e, c) (branches t) ->
+  topo_depth t c = Nat.min (length (leaves t) - length (leaves c)) (length (leaves c)).
+Proof. exact topo_depth_light. Qed.
+Print Assumptions C07_depth_is_light_side.
+
+(** CollapseTopoDepth never refuses on such trees and is [remove_edges] with that predicate, so
+    all the statements above apply to it *)
+Theorem C07_collapse_depth_ok :
+  forall mn mx rr rt t, wf t = true -> 2 <= degree t ->
+  collapse_depth mn mx rr rt t = Ok (remove_edges rr rt (fun _ _ c => sel_depth t mn mx c) t).
+Proof. exact collapse_depth_ok. Qed.
+Print Assumptions C07_collapse_depth_ok.
+
+(** * the observables of the judge *)
+(** [ukeys t]: the bipartitions of t as the judge sees them (canonical sides of [usplits t]) *)
+
+(** Resolve: same tip set, same distance matrix, every original bipartition kept *)
+Theorem C07_resolve_matrix :
+  forall t cs, wf t = true -> NoDup (leaves t) ->
+  matrix_eqb (dist_matrix len0 t) (dist_matrix len0 (resolve t cs)) = true.
+Proof. exact resolve_matrix. Qed.
+Print Assumptions C07_resolve_matrix.
+
+Theorem C07_resolve_tips :
+  forall t cs, wf t = true -> sset_eqb (ssort (leaves t)) (ssort (leaves (resolve t cs))) = true.
+Proof. exact resolve_tips. Qed.
+Print Assumptions C07_resolve_tips.
+
+Theorem C07_resolve_usplits_kept :
+  forall t cs key, wf t = true -> In key (ukeys t) -> In key (ukeys (resolve t cs)).
+Proof. exact resolve_keys. Qed.
+Print Assumptions C07_resolve_usplits_kept.
+
+(** Collapse: same tip set; no new bipartition; tip branches and non-selected branches keep
+    theirs; exact set with removeRoot and for the default on unrooted trees *)
+Theorem C07_collapse_tips :
+  forall rr rt sel t, wf t = true ->
+  sset_eqb (ssort (leaves t)) (ssort (leaves (remove_edges rr rt sel t))) = true.
+Proof. exact collapse_tips. Qed.
+Print Assumptions C07_collapse_tips.
+
+Theorem C07_collapse_usplits_sound :
+  forall rr rt sel t key, wf t = true -> In key (ukeys (remove_edges rr rt sel t)) -> In key (ukeys t).
+Proof. exact collapse_keys_sound. Qed.
+Print Assumptions C07_collapse_usplits_sound.
+
+Theorem C07_collapse_usplits_complete :
+  forall rr rt sel t e c, wf t = true -> In (e, c) (branches t) ->
+  (is_tip c = true \/ forall k, sel k e c = false) ->
+  In (canon_side (tipset t) (sset (leaves c))) (ukeys (remove_edges rr rt sel t)).
+Proof. exact collapse_keys_complete. Qed.
+Print Assumptions C07_collapse_usplits_complete.
+
+Theorem C07_collapse_usplits_exact_unrooted :
+  forall rt s t key, wf t = true -> no_single t = true -> 3 <= degree t ->
+  (In key (ukeys (remove_edges false rt (fun _ e c => s e c) t)) <->
+   exists p, In p (branches t) /\ stays s p = true /\ key = canon_side (tipset t) (sset (leaves (snd p)))).
+Proof. exact collapse_keys_exact_unrooted. Qed.
+Print Assumptions C07_collapse_usplits_exact_unrooted.
+
+Theorem C07_collapse_usplits_exact_removeRoot :
+  forall rt s t key, wf t = true ->
+  (In key (ukeys (remove_edges true rt (fun _ e c => s e c) t)) <->
+   exists p, In p (branches t) /\ stays s p = true /\ key = canon_side (tipset t) (sset (leaves (snd p)))).
+Proof. exact collapse_keys_exact. Qed.
+Print Assumptions C07_collapse_usplits_exact_removeRoot.
+
+(** contracting zero-length branches: same distance matrix *)
+Theorem C07_collapse_zero_matrix :
+  forall rr rt sel t, (forall k e c, sel k e c = true -> (len0 e == 0)%Q) ->
+  wf t = true -> NoDup (leaves t) ->
+  matrix_eqb (dist_matrix len0 t) (dist_matrix len0 (remove_edges rr rt sel t)) = true.
+Proof. exact collapse_zero_matrix. Qed.
+Print Assumptions C07_collapse_zero_matrix.
+
+(** Resolve keeps "no single-child node" and the root ends with min(3, its degree) neighbours:
+    with C07_resolve_binary, an unrooted tree becomes fully binary (every inner node has exactly
+    three neighbours) and a rooted one stays rooted *)
+Theorem C07_resolve_no_single :
+  forall t cs, wf t = true -> no_single t = true -> no_single (resolve t cs) = true.
+Proof. exact resolve_no_single. Qed.
+Print Assumptions C07_resolve_no_single.
+
+Theorem C07_resolve_root_degree :
+  forall t cs, wf t = true -> degree (resolve t cs) = Nat.min 3 (degree t).
+Proof. exact resolve_root_degree. Qed.
+Print Assumptions C07_resolve_root_degree.
